@@ -18,6 +18,14 @@
 //  * free / realloc of a live block while out-of-memory is simulated is never generated (cpputest reports an
 //    allocator type mismatch there; the property does not speak about releases).
 //  * throwing forms of new may throw bad_alloc or return NULL ("return NULL (or throw bad_alloc)").
+//  * a location name is the whole file text: section location_name_discrimination enumerates pairs of names whose first
+//    difference is at every position 0..272 (other character / case / proper prefix either way).
+//  * C level with the malloc allocator changed by the test between out-of-memory episodes (standard / two failable
+//    allocators that count the requests reaching them): "clearing the injections restores normal behaviour" is judged as
+//    "requests the simulated out-of-memory does not answer are answered by the allocator the test put in effect, under
+//    that allocator's own designations". The allocator is changed only while no injection is armed. Clearing an injection
+//    that never entered the out-of-memory state (unexpired countdown) under a non-standard allocator is counted only:
+//    the unchanged cpputest installs the standard allocator there (TestHarness_c.cpp, originalAllocator still NULL).
 #include "verif.h"
 #include <new>
 #include <climits>
@@ -38,7 +46,7 @@ static char F_A2[] = "fileA.c";          // same text, different address: the sa
 static char F_B[] = "fileB.c";
 static char F_AP[] = "fileA.cpp";        // "fileA.c" is a proper prefix
 static char F_DIR[] = "dir/fileA.c";     // "fileA.c" is a proper suffix
-// long build-tree paths (as __FILE__ spells them in an out-of-tree build) that agree in their first 80 characters
+// long build-tree paths (as __FILE__ spells them in an out-of-tree build) that agree in their first 90 characters
 static char F_LA[] = "/home/builder/workspace/product/firmware/components/connectivity/transport/source/session_alpha.c";
 static char F_LB[] = "/home/builder/workspace/product/firmware/components/connectivity/transport/source/session_beta.c";
 // two scratch names, rewritten by the name-discrimination section for every case (ids 7 and 8)
@@ -777,7 +785,7 @@ static void c_run_and_judge(vf::Ctx& c, CBuilder& b, const std::string& sig) {
             std::string where = "step " + std::to_string(i) + " (" + nm + ", request #" + std::to_string(reqs_since_set) + " since the injection was set, malloc allocator in effect: " + EFF_NAME[eff] + ")";
             if (why == JX_SHOULD_SUCCEED) viol_once(c, seen, "c-" + phase + ":failed-but-should-succeed:" + cls, where + " returned NULL");
             else if (why == JX_SHOULD_FAIL) viol_once(c, seen, "c-" + phase + ":succeeded-but-should-fail:" + cls, where + " returned a block");
-            else if (why == JX_SERVED_BY_OTHER) viol_once(c, seen, "c-" + phase + ":served-by-other-than-the-allocator-in-effect:" + (eff ? "failable" : "standard"), where + " was answered by " + (recv == 0 ? std::string("an allocator other than the installed failable ones") : std::string("failable allocator(s) bitset ") + std::to_string(recv)) + (failed ? " (NULL)" : " (block)"));
+            else if (why == JX_SERVED_BY_OTHER) viol_once(c, seen, "c-" + phase + ":served-by-other-than-the-allocator-in-effect", where + " was answered by " + (recv == 0 ? std::string("an allocator other than the installed failable ones") : std::string("failable allocator(s) bitset ") + std::to_string(recv)) + (failed ? " (NULL)" : " (block)"));
             else if (why == JX_DESIGNATED_SUCCEEDED) viol_once(c, seen, "c-" + phase + ":failable-in-effect:designated-succeeded", where + " is request " + std::to_string(cntA) + " reaching the failable allocator (" + std::to_string(cntB) + " made), designated, but returned a block");
             else viol_once(c, seen, "c-" + phase + ":failable-in-effect:undesignated-failed", where + " is request " + std::to_string(cntA) + " reaching the failable allocator (" + std::to_string(cntB) + " made), not designated, but returned NULL");
             break;      // later predictions depend on this one
@@ -788,7 +796,9 @@ static void c_run_and_judge(vf::Ctx& c, CBuilder& b, const std::string& sig) {
         else if (failed) { saw_fail = true; c.count("c_requests_failed_as_designated"); } else { if (armed) saw_ok_before = true; c.count("c_requests_succeeded"); }
         if (!failed && !isrealloc) {
             if (eff != 0 && recv == eff) { c.count(desA != desB ? "c_failable_in_effect_designation_reading_ambiguous" : "c_request_served_by_failable_in_effect"); if (restored_once && !armed) c.count("c_request_served_by_failable_in_effect_after_restore"); }
-            if (eff != 0 && recv == 0) c.count("c_request_served_by_standard_after_restore_before_expiry_dropped_the_failable_allocator");
+            // clearing an injection that never entered out-of-memory (unexpired countdown / nothing set) must leave the
+            // malloc allocator the test installed in effect ("clearing the injections restores normal behaviour")
+            if (eff != 0 && recv == 0) { c.count("c_request_served_by_standard_after_restore_before_expiry_dropped_the_failable_allocator"); viol_once(c, seen, "c-after-restore:unexpired-clear-dropped-the-allocator-in-effect", "step " + std::to_string(i) + " (" + nm + ") was answered by the standard allocator although the test's own malloc allocator was in effect before the (never entered) out-of-memory state was cleared"); }
         }
         if (s.content_bad) viol_once(c, seen, "c-level:content:" + cls, "block content wrong at step " + std::to_string(i));
     }
